@@ -1126,7 +1126,7 @@ NP._chain('value_getattr_hook', _cast_getattr)
 
 # ------------------------------------------------------------------------------------------ deterministic budgets, retried before reported
 # engine.discharge budgets a query by z3's deterministic `rlimit` (wall clock is only a safety net).  An `unknown` whose reason is a budget
-# ("canceled", "timeout", "max. resource limit exceeded", "push canceled") is retried here with a fresh solver and a 4x / 16x larger rlimit
+# ("canceled", "timeout", "max. resource limit exceeded", "push canceled") is retried here with a fresh solver and a 2x / 4x larger rlimit
 # before it is reported, so that a verdict never depends on how busy the machine is.
 _orig_discharge = E.discharge
 BUDGET_WORDS = ('cancel', 'timeout', 'resource', 'interrupted')
@@ -1137,11 +1137,11 @@ def discharge_retry(run, formula, npc=None, nax=None, timeout_ms=10000, extra=()
     base = rlimit if rlimit is not None else int(timeout_ms) * 2500
     v, m, dt = _orig_discharge(run, formula, npc, nax, timeout_ms=timeout_ms, extra=extra, rlimit=base)
     k = 0
-    # (after three queries of this process stayed open through both retries the family is genuinely hard -- typically an obligation that
+    # (after two queries of this process stayed open through both retries the family is genuinely hard -- typically an obligation that
     # does not hold, with quantifiers: the bounded native search decides it; further retries would only burn time)
-    while v == 'unknown' and k < 2 and _RETRY_EXHAUSTED[0] < 3 and any(w in str(m).lower() for w in BUDGET_WORDS):
+    while v == 'unknown' and k < 2 and _RETRY_EXHAUSTED[0] < 2 and any(w in str(m).lower() for w in BUDGET_WORDS):
         k += 1
-        v, m, dt2 = _orig_discharge(run, formula, npc, nax, timeout_ms=timeout_ms * 4 ** k, extra=extra, rlimit=base * 4 ** k)
+        v, m, dt2 = _orig_discharge(run, formula, npc, nax, timeout_ms=timeout_ms * 2 ** k, extra=extra, rlimit=base * 2 ** k)
         dt += dt2
         if k == 2 and v == 'unknown':
             _RETRY_EXHAUSTED[0] += 1
